@@ -8,7 +8,7 @@ import re
 from ..cfg import build_cfg, calls_in, node_calls
 from ..core import Ctx, property_info, rule
 from ..model import AnalysisError, FuncInfo, walk_no_nested
-from ..q import A, L, asrc, call_name_of, is_self_attr, kwarg, names_in, return_values, stores, unparse
+from ..q import A, L, asrc, call_name_of, flows, is_self_attr, kwarg, names_in, return_values, stores, unparse
 
 SCOPE = ("xsdata.codegen", "xsdata.formats.dataclass.generator", "xsdata.formats.dataclass.filters", "xsdata.formats.mixins", "xsdata.models.xsd", "xsdata.models.config",
          "xsdata.models.wsdl", "xsdata.models.dtd", "xsdata.models.mixins", "xsdata.utils.graphs", "xsdata.utils.collections", "xsdata.utils.namespaces", "xsdata.utils.package",
@@ -266,18 +266,24 @@ def id_discipline(ctx: Ctx) -> None:
         ctx.ob(f"Restrictions.asdict never emits `{k}` (holds raw id() values)", k in skip, at=ad, construct=f"asdict skips {k}", msg="an object address is rendered into field metadata")
     # sequence is emitted, so it must be renumbered (attrs) or cleared (choices, which the renumbering does not visit)
     rn = ctx.repo.func("xsdata.codegen.handlers.reset_attribute_sequence_numbers:ResetAttributeSequenceNumbers.process")
-    a = asrc(rn)
-    ctx.ob("ResetAttributeSequenceNumbers groups attrs by their (id-valued) sequence and assigns consecutive numbers in attr order", A("for_in_.attrs:;if_.restrictions.sequence:;_[_.restrictions.sequence].append(_)") in a
-           and A("_.restrictions.sequence=_") in a and A("_+=1") in a, at=rn, construct="renumbering", msg="renumbering changed")
+    grn = build_cfg(rn.node)
+    # every attr with a (raw, id-valued) sequence gets it overwritten by a counter that starts at find_next_sequence_number() and only grows by 1
+    seq_stores = [(st, v) for st, tgt, v in stores(rn.node) if isinstance(tgt, ast.Attribute) and tgt.attr == "sequence" and v is not None]
+    counters = {v.id for _, v in seq_stores if isinstance(v, ast.Name)}
+    cdefs = [(st, v) for st, tgt, v in stores(rn.node) if isinstance(tgt, ast.Name) and tgt.id in counters]
+    ok = bool(seq_stores) and len(counters) == 1 and all(isinstance(v, ast.Name) for _, v in seq_stores) and bool(cdefs) and all(
+        (isinstance(v, ast.Call) and call_name_of(v) == "find_next_sequence_number") or (isinstance(st, ast.AugAssign) and isinstance(st.op, ast.Add) and isinstance(v, ast.Constant) and v.value == 1) for st, v in cdefs) \
+        and any(isinstance(x, ast.Attribute) and x.attr == "attrs" for l in walk_no_nested(rn.node) if isinstance(l, ast.For) for x in ast.walk(l.iter))
+    ctx.ob("ResetAttributeSequenceNumbers overwrites every id-valued sequence with a counter (start = next free number of the bases, +1 per group, groups in attr order)", ok, at=rn, construct="renumbering", msg="renumbering changed")
     g = ctx.repo.func("xsdata.codegen.handlers.reset_attribute_sequence_numbers:ResetAttributeSequenceNumbers.find_next_sequence_number")
-    ctx.ob("find_next_sequence_number takes the maximum over base_attrs (bases are finalised, i.e. renumbered, first)", A("_=self.base_attrs(_)") in asrc(g), at=g, construct="max over renumbered bases", msg="max over raw ids")
+    ctx.ob("find_next_sequence_number takes the maximum over base_attrs (bases are finalised, i.e. renumbered, first)", any(unparse(c.func) == "self.base_attrs" for c in calls_in(g.node)) and any(call_name_of(c) == "max" for c in calls_in(g.node)), at=g, construct="max over renumbered bases", msg="max over raw ids")
     cc = ctx.repo.func("xsdata.codegen.handlers.create_compound_fields:CreateCompoundFields.build_attr_choice")
     clones = [c for c in calls_in(cc.node) if isinstance(c.func, ast.Attribute) and c.func.attr == "clone" and "restrictions" in unparse(c.func.value)]
     ok = len(clones) == 1 and isinstance(kwarg(clones[0], "sequence"), ast.Constant) and kwarg(clones[0], "sequence").value is None
     ctx.ob("attrs moved into a compound field's choices get sequence=None (choices are not renumbered, and their sequence is emitted)", ok, at=cc, node=clones[0] if clones else None, construct="choice sequence cleared",
            msg="the raw id() sequence number of a choice survives to Filters.field_choices and is rendered as \"sequence\": <address> - different on every run")
     pm = ctx.repo.func("xsdata.codegen.handlers.process_mixed_content_class:ProcessMixedContentClass.process")
-    ctx.ob("choices created for mixed content get sequence = None", A("_.restrictions.sequence=None") in asrc(pm), at=pm, construct="mixed choice sequence cleared", msg="raw sequence ids in mixed content choices")
+    ctx.ob("choices created for mixed content get sequence = None", any(isinstance(tgt, ast.Attribute) and tgt.attr == "sequence" and isinstance(v, ast.Constant) and v.value is None for _, tgt, v in stores(pm.node)), at=pm, construct="mixed choice sequence cleared", msg="raw sequence ids in mixed content choices")
 
 
 def asdict_skipped_keys(ctx: Ctx) -> set[str]:
@@ -373,7 +379,10 @@ def sorted_source_listings(ctx: Ctx) -> None:
                     ctx.ob(f"{fq}: {unparse(c)[:40]} result is sorted before use", _parent_call(f.node, c) is not None and unparse(_parent_call(f.node, c).func) == "sorted", at=f, node=c, msg="unsorted directory listing")
     ctx.floor("directory listing sites", n, 1)
     tr = ctx.repo.func("xsdata.cli:generate")
-    ctx.ob("the sorted list is what the transformer processes", A("_=sorted(resolve_source(_,recursive=_,extensions=_));_.process(_,cache=_)") in asrc(tr), at=tr, construct="sorted list used", msg="another list is processed")
+    gtr = build_cfg(tr.node)
+    procs = [(n, c) for n in gtr.stmts() for c in node_calls(n) if isinstance(c.func, ast.Attribute) and c.func.attr == "process" and c.args]
+    ok = bool(procs) and all(all(isinstance(leaf, ast.Call) and call_name_of(leaf) == "sorted" and any(isinstance(x, ast.Call) and call_name_of(x) == "resolve_source" for x in ast.walk(leaf)) for leaf, _ in flows(tr, n, c.args[0])) for n, c in procs)
+    ctx.ob("the sorted list is what the transformer processes", ok, at=tr, construct="sorted list used", msg="another list is processed")
 
 
 NONDET = ("datetime.datetime.now", "datetime.now", "datetime.today", "datetime.date.today", "time.time", "time.monotonic", "random.", "uuid.", "os.getpid", "os.environ", "os.getenv", "secrets.")
@@ -447,17 +456,29 @@ def renumbering_is_last(ctx: Ctx) -> None:
            construct="step order", msg=f"step values {vals}")
     pr = ctx.repo.func("xsdata.codegen.container:ClassContainer.process")
     seq = [unparse(c.args[0]) for c in calls_in(pr.node) if unparse(c.func) == "self.process_classes"]
-    ctx.ob("process() runs the steps in increasing order and designates last", seq == ["Steps.UNGROUP", "Steps.FLATTEN", "Steps.SANITIZE", "Steps.RESOLVE", "Steps.CLEANUP", "Steps.FINALIZE"]
-           and A("self.process_classes(Steps.FINALIZE);self.designate_classes()") in asrc(pr), at=pr, construct="process order", msg=f"order {seq}")
+    ctx.ob("process() runs the steps in increasing order and designates last", seq == ["Steps.UNGROUP", "Steps.FLATTEN", "Steps.SANITIZE", "Steps.RESOLVE", "Steps.CLEANUP", "Steps.FINALIZE"] and _designate_last(pr), at=pr, construct="process order", msg=f"order {seq}")
+
+
+def _designate_last(pr: FuncInfo) -> bool:
+    g = build_cfg(pr.node)
+    fin = [n for n in g.stmts() if any(unparse(c.func) == "self.process_classes" for c in node_calls(n))]
+    des = [n for n in g.stmts() if any(unparse(c.func) == "self.designate_classes" for c in node_calls(n))]
+    return len(des) == 1 and bool(fin) and all(g.must_pass(g.entry, des[0].id, [f.id]) and f.id not in g.reachable([des[0].id]) for f in fin)
 
 
 @rule("C12.R6")
 def routes_agree(ctx: Ctx) -> None:
     """CLI option names are built with the separator the CLI reverses; config read and write use the same context; unset options do not override the file."""
     gen = ctx.repo.func("xsdata.cli:generate")
-    ctx.ob("cli.generate maps option names back with k.replace('__', '.') and drops unset (None) options", A("_={_.replace('__','.'):_for_,_in_.items()if_isnotNone}") in asrc(gen), at=gen, construct="option mapping",
+    rep = [c for c in walk_no_nested(gen.node) if isinstance(c, ast.Call) and call_name_of(c) == "replace" and [unparse(a) for a in c.args] == ["'__'", "'.'"]]
+    comps = [x for x in walk_no_nested(gen.node) if isinstance(x, ast.DictComp) and any(r in list(ast.walk(x.key)) for r in rep)]
+    ok = bool(comps) and all(len(x.generators) == 1 and [A(unparse(i)) for i in x.generators[0].ifs] == [A(f"{unparse(x.value)} is not None")] for x in comps)
+    ctx.ob("cli.generate maps option names back with k.replace('__', '.') and drops unset (None) options", ok, at=gen, construct="option mapping",
            msg="flags and config file disagree")
-    ctx.ob("cli.generate applies the options on top of the config file", A("_=GeneratorConfig.read(_);_.output.update(**_)") in asrc(gen), at=gen, construct="options override file", msg="route changed")
+    gg = build_cfg(gen.node)
+    reads = [n for n in gg.stmts() if any(unparse(c.func) == "GeneratorConfig.read" for c in node_calls(n))]
+    upd = [n for n in gg.stmts() if any(isinstance(c.func, ast.Attribute) and c.func.attr == "update" and unparse(c.func.value).endswith(".output") and any(k.arg is None for k in c.keywords) for c in node_calls(n))]
+    ctx.ob("cli.generate applies the options on top of the config file", bool(reads) and bool(upd) and all(gg.must_pass(gg.entry, u.id, [r.id for r in reads]) for u in upd), at=gen, construct="options override file", msg="route changed")
     bo = ctx.repo.func_opt("xsdata.utils.click:build_options")
     if bo is None:
         raise AnalysisError("C12.R6: utils.click.build_options vanished")
